@@ -89,7 +89,7 @@ theorem runJ_erase (es : List JEv) : ∀ s, runJ s es = Life.run s (es.map erase
 exchange, at most one active reader — the lifecycle theorems carry over to histories with transport frames -/
 theorem transport_frames_keep_invariants (es : List JEv) (s0 s : LSt) (hr : runJ s0 es = some s) :
     (s0.keyed = true → s.keyed = true ∧ s.keyId = s0.keyId ∧ s.keyExchanges = s0.keyExchanges) ∧
-    (Reachable s0 → Reachable s ∧ (activeReaders s).length ≤ 1) := by
+    (Life.Reachable s0 → Life.Reachable s ∧ (activeReaders s).length ≤ 1) := by
   rw [runJ_erase] at hr
   refine ⟨fun hk => reconnect_keeps_key _ s0 s hk hr, fun h0 => ?_⟩
   have h := reachable_run _ s0 s h0 hr
@@ -103,8 +103,8 @@ theorem probe_enabled_after_frames (fs : List Bytes) (s s' : LSt) (h : reading s
   rw [transport_frames_are_harmless fs s h] at hr
   cases hr
   simp only [Life.step, machEnabled, writable, Client.step, mayCall]
-  split <;> [skip; rfl]
-  split <;> split <;> simp_all
+  repeat' split
+  all_goals simp_all
 
 example : (runJ (connected0 {} true 7) [.frame [0x6c, 0xfe, 0xff, 0xff], .life (.mach (.send 1 4 1 0)), .frame [],
     .frame [1,2,3,4,5,6,7,8,9], .life .connClosed, .life (.redialOk 2 0), .frame [0,0,0,0]]).map
